@@ -171,9 +171,9 @@ Proof.
   destruct (valid_size os && valid_size ls) eqn:E; cbn [negb]; [|discriminate].
   apply andb_true_iff in E. destruct E as [_ E].
   destruct (version =? 0).
-  - destruct (read_value buf 64 os be1); cbn [obind]; try discriminate.
-    destruct (read_value buf 80 os be1); cbn [obind]; try discriminate.
-    destruct (read_value buf 88 os be1); cbn [obind]; try discriminate.
+  - destruct (read_value buf (24 + 4 * os + os) os be1); cbn [obind]; try discriminate.
+    destruct (read_value buf (24 + 4 * os + 2 * os + 8) os be1); cbn [obind]; try discriminate.
+    destruct (read_value buf (24 + 4 * os + 2 * os + 8 + os) os be1); cbn [obind]; try discriminate.
     intros H; inversion H; subst; exact E.
   - destruct (read_value buf 12 os be1); cbn [obind]; try discriminate.
     destruct (read_value buf (12 + os) os be1); cbn [obind]; try discriminate.
